@@ -210,6 +210,8 @@ def run(text, solver, timeout_s, workdir, tag='q', per_query_ms=None, decimal=Fa
         cmd = [Z3NEW]
         if per_query_ms:
             cmd.append(f'-t:{per_query_ms}')
+        if decimal:
+            cmd += ['pp.decimal=true', 'pp.decimal_precision=30']
         cmd.append(path)
     elif solver == 'cvc5':
         cmd = [CVC5, '--incremental']
@@ -231,7 +233,7 @@ def run(text, solver, timeout_s, workdir, tag='q', per_query_ms=None, decimal=Fa
     wall = time.time() - t0
     n_expected = text.count('(check-sat)')
     answers = []
-    out_chk = '\n'.join(l for l in out.split('\n') if 'model is not available' not in l)
+    out_chk = '\n'.join(l for l in out.split('\n') if 'model is not available' not in l and 'cannot get value' not in l.lower() and 'cannot get model' not in l.lower())
     if '(error' in out_chk:
         m = re.search(r'\(error[^\n]*', out)
         answers = ['error:' + m.group(0)[:200]] * n_expected
